@@ -6,6 +6,7 @@ package sftp
 
 import (
 	"bytes"
+	"context"
 	"errors"
 	"fmt"
 	"io"
@@ -46,6 +47,24 @@ type vfClientEnv struct {
 	files map[int]*File
 	tag   uint64
 	sink  *vfSink // the sink of the WriteTo in progress (to tell an endless stream from a stuck call)
+	// cancel functions of context-carrying calls in progress, by task
+	cancels map[int]func()
+}
+
+// cancelEvents offers "cancel the context of task t's call" while such a call is in progress.
+func (e *vfClientEnv) cancelEvents(add func(string, func())) {
+	e.mu.Lock()
+	defer e.mu.Unlock()
+	for t, c := range e.cancels {
+		t, c := t, c
+		add(fmt.Sprintf("x:cancel:%02d", t), func() {
+			e.mu.Lock()
+			delete(e.cancels, t)
+			e.mu.Unlock()
+			e.sim.count("fault.ctx.cancel")
+			c()
+		})
+	}
 }
 
 func (e *vfClientEnv) file(slot int) *File {
@@ -298,6 +317,24 @@ func (e *vfClientEnv) do(op vfOp) (res *vfOpResult) {
 		res.Err = f.Chown(int(op.A), int(op.B))
 	case "sync":
 		res.Err = f.Sync()
+	case "readdirctx":
+		ctx, cancel := context.WithCancel(context.Background())
+		e.mu.Lock()
+		if e.cancels == nil {
+			e.cancels = map[int]func(){}
+		}
+		e.cancels[op.T] = cancel
+		e.mu.Unlock()
+		var fis []os.FileInfo
+		fis, res.Err = c.ReadDirContext(ctx, op.P)
+		e.mu.Lock()
+		delete(e.cancels, op.T)
+		e.mu.Unlock()
+		cancel()
+		for _, fi := range fis {
+			res.Names = append(res.Names, fi.Name())
+		}
+		sort.Strings(res.Names)
 	case "readdir":
 		var fis []os.FileInfo
 		fis, res.Err = c.ReadDir(op.P)
@@ -373,5 +410,8 @@ func vfClientSites(sim *vfSim, mask int64) {
 	}
 	if mask&32 != 0 {
 		sim.sites["f.lock"] = true
+	}
+	if mask&64 != 0 {
+		sim.sites["pkt.mid"] = true // between a packet's header and payload writes (client side only)
 	}
 }
